@@ -1,6 +1,6 @@
 //! Storage driver (C19): append / fetch_or_append histories on Storage<f64> (with +0.0 / -0.0, which
 //! are equal but distinguishable, and NaN) and on Storage<KeyTag> (an arbitrary non-reflexive
-//! equality: same key and different tag); after every operation, lookups through ALL tokens handed out.
+//! equality: same key and different tag) and Storage<Near> (non-transitive: distance <= 1); after every operation, lookups through ALL tokens handed out.
 use crate::util::*;
 use rspirv::sr::storage::{Storage, Token};
 use serde_json::{json, Value};
@@ -28,6 +28,15 @@ impl Elem for KeyTag {
     fn label(&self) -> Value { json!({"k": self.0, "t": self.1, "m": "difftag"}) }
 }
 
+/// a reflexive, symmetric, non-transitive equality: numbers at distance <= 1
+#[derive(Debug)]
+struct Near(i64);
+impl PartialEq for Near { fn eq(&self, o: &Near) -> bool { (self.0 - o.0).abs() <= 1 } }
+impl Elem for Near {
+    fn of(v: &Value) -> Near { Near(v["t"].as_i64().unwrap()) }
+    fn label(&self) -> Value { json!({"k": "n", "t": self.0, "m": "near"}) }
+}
+
 fn run<T: Elem>(out: &mut Out, ty: &str, ops: &[(String, Value)]) {
     out.ev(json!({"ev": "snew", "ty": ty}));
     let mut s: Storage<T> = Storage::new();
@@ -46,7 +55,11 @@ fn run<T: Elem>(out: &mut Out, ty: &str, ops: &[(String, Value)]) {
     }
 }
 fn run_any(out: &mut Out, ops: &[(String, Value)]) {
-    if ops.first().map(|o| o.1["m"] == "difftag").unwrap_or(false) { run::<KeyTag>(out, "keytag", ops) } else { run::<f64>(out, "f64", ops) }
+    match ops.first().and_then(|o| o.1["m"].as_str()) {
+        Some("difftag") => run::<KeyTag>(out, "keytag", ops),
+        Some("near") => run::<Near>(out, "near", ops),
+        _ => run::<f64>(out, "f64", ops),
+    }
 }
 
 pub fn drive(args: &[String]) {
@@ -67,9 +80,10 @@ pub fn drive(args: &[String]) {
     let fvals = [json!({"k": "zero", "t": 0, "m": "std"}), json!({"k": "zero", "t": 1, "m": "std"}), json!({"k": "one", "t": 0, "m": "std"}), json!({"k": "nan", "t": 0, "m": "nan"}),
                  json!({"k": "o1", "t": 0, "m": "std"}), json!({"k": "o2", "t": 0, "m": "std"})];
     let kvals: Vec<Value> = (0..3).flat_map(|k| (0..3).map(move |t| json!({"k": format!("k{}", k), "t": t, "m": "difftag"}))).collect();
+    let nvals: Vec<Value> = (0..9).map(|t| json!({"k": "n", "t": 10 + t, "m": "near"})).collect();
     for k in 0..arg_num(args, "--random", 0) {
         let n = 1 + rng.below(if k % 10 == 0 { 150 } else { 40 });
-        let pool: &[Value] = if k % 2 == 0 { &fvals } else { &kvals };
+        let pool: &[Value] = match k % 3 { 0 => &fvals, 1 => &kvals, _ => &nvals };
         let ops: Vec<(String, Value)> = (0..n).map(|_| (rng.pick(&["append", "fetch_or_append", "fetch_or_append"]).to_string(), rng.pick(pool).clone())).collect();
         run_any(&mut out, &ops);
         histories += 1;
